@@ -5,7 +5,7 @@ use bytes::{Buf, Bytes};
 use num_bigint::BigUint;
 
 use crate::{
-    errors::{InvalidInputSnafu, Result},
+    errors::{ensure, InvalidInputSnafu, Result},
     parsing_reader::BufReadParsing,
     ser::Serialize,
 };
@@ -104,6 +104,12 @@ impl Serialize for Mpi {
     fn to_writer<W: io::Write>(&self, w: &mut W) -> Result<()> {
         let bytes = &self.0;
         let size = bit_size(bytes);
+        // larger values are refused when reading
+        ensure!(
+            size <= usize::from(MAX_EXTERN_MPI_BITS),
+            "MPI of {} bits is too large",
+            size
+        );
         w.write_u16::<BigEndian>(size.try_into()?)?;
         w.write_all(bytes)?;
 
